@@ -163,6 +163,13 @@ func randomTraps(r *rng.R) apd.Condition {
 	}
 }
 
+// isSystemOutcome recognises an exponent-limit failure without relying on
+// the error text: system flags, or an error that carries no condition at all
+// (trap errors always carry the trapped condition).
+func isSystemOutcome(o Outcome) bool {
+	return o.Flags&sysFlags != 0 || isSystemErr(o.Err) || (o.Err != nil && o.Flags == 0)
+}
+
 func isSystemErr(err error) bool {
 	return err != nil && strings.Contains(err.Error(), "exponent out of range")
 }
@@ -173,7 +180,7 @@ func compareOutcomes(op string, a, b Outcome) string {
 	if (a.Err != nil) != (b.Err != nil) {
 		return fmt.Sprintf("error differs: %v vs %v", a.Err, b.Err)
 	}
-	if isSystemErr(a.Err) || isSystemErr(b.Err) {
+	if isSystemOutcome(a) || isSystemOutcome(b) {
 		return ""
 	}
 	if a.Err != nil && isComposite(op) {
